@@ -137,6 +137,8 @@ class FuncModel:
                 return self.is_abbreviation(e.args[1], at)
             if n in PURE_PREDICATES or n in ("node_is_minimal", "len"):
                 return all(self.is_pure(a) for a in e.args)
+            if n == "get" and isinstance(e.func, ast.Attribute) and len(e.args) == 1 and not e.keywords:
+                return self.is_pure(e.func.value) and self.is_pure(e.args[0])  # dictionary read
             return False
         if isinstance(e, ast.Subscript):
             h = self.raw_handle(e.value) or (self.handle(e.value, at, check_stale=False) if at is not None else None)
@@ -147,6 +149,8 @@ class FuncModel:
                 return True
             return False
         if isinstance(e, (ast.BoolOp, ast.Compare)) or (isinstance(e, ast.UnaryOp) and isinstance(e.op, ast.Not)):
+            return self.is_pure(e)
+        if isinstance(e, (ast.BinOp, ast.IfExp)):
             return self.is_pure(e)
         return False
 
@@ -165,6 +169,8 @@ class FuncModel:
             return self.is_pure(e.operand)
         if isinstance(e, ast.BinOp):
             return self.is_pure(e.left) and self.is_pure(e.right)
+        if isinstance(e, ast.IfExp):
+            return self.is_pure(e.test) and self.is_pure(e.body) and self.is_pure(e.orelse)
         if isinstance(e, (ast.Tuple, ast.List, ast.Set)):
             return all(self.is_pure(x) for x in e.elts)
         if isinstance(e, ast.Call):
@@ -365,11 +371,11 @@ class FuncModel:
                             out |= {"*nodes", "*edges", "F:*"}
         return out
 
-    def stale(self, d: N, at: N | None, e: ast.AST) -> bool:
+    def stale(self, d: N, at: N | None, e: ast.AST, deep: bool = False) -> bool:
         """May a location read by `e` (evaluated at d) be written between d and `at`?"""
         if at is None or d is at:
             return False
-        rd = self.reads(e, d)
+        rd = self.reads_deep(e, d) if deep else self.reads(e, d)
         if not rd:
             return False
         bk = (d.id, at.id)
@@ -392,9 +398,24 @@ class FuncModel:
             if d.kind != "branch" or d.test is None:
                 continue
             tnode = next(iter(self.cfg.g.predecessors(d.id)))
-            if self.stale(self.cfg.nodes[tnode], n, d.test):
+            if self.stale(self.cfg.nodes[tnode], n, d.test, deep=True):
                 continue
             out.append((d.test, d.pol, d))
+        return out
+
+    def reads_deep(self, e: ast.AST, at: N | None, depth: int = 0) -> set[str]:
+        """Locations read by the alias-expanded form of e: a local that merely abbreviates an expression
+        (valid at `at`) is replaced by what that expression reads. A fact about `x` with `x = D.get(k)` is a
+        fact about D and k; re-binding x afterwards does not invalidate it."""
+        out = set()
+        for r in self.reads(e, at):
+            if depth < 6 and not r.startswith(("F:", "*")):
+                sd = self.single_def(r, at)
+                if sd is not None and self.is_abbreviation(sd[1], sd[0]) and not isinstance(sd[1], (ast.Name, ast.Constant)) \
+                        and not self.stale(sd[0], at, sd[1]):
+                    out |= self.reads_deep(sd[1], sd[0], depth + 1)
+                    continue
+            out.add(r)
         return out
 
     def pc(self, n: N, atomize=None, numeric=None):
@@ -421,7 +442,8 @@ class FuncModel:
                     return me.canon_ast(rhs, d)
             return None
 
-        return logic.Translator(lambda e: self.key(e, at), atomize=atomize, numeric=numeric, expand=expand)
+        return logic.Translator(lambda e: self.key(e, at), atomize=atomize, numeric=numeric, expand=expand,
+                                canon=lambda e: self.canon_ast(e, at))
 
     def formula(self, e: ast.expr, at: N | None, atomize=None, numeric=None):
         return self.translator(at, atomize, numeric).f(e)
